@@ -16,7 +16,7 @@ from .pool import PoolScenario, check_writeset, hashes, snapshot_docs
 class C07(PoolScenario):
     prop = "C07"
     level = "exploration"
-    profiles = ["iadd-replica", "iadd-replica", "sparksql"]
+    profiles = ["iadd-replica", "iadd-replica", "sparksql", "iadd-replica", "built"]
     budgets = {"quick": 12000, "thorough": 250000}
     wall_caps = {"quick": 110, "thorough": 1500}
     rule = ("one run = a driver holding two replicas of the accumulator (a does +=, a' does a' = a' + b) and several "
@@ -28,11 +28,21 @@ class C07(PoolScenario):
                    "the JVM peer is a Python stand-in that computes partials with the library itself"]
     expected_faults = ["alias_mutation", "restore"]
     expected_probes = ["iadd_nonempty_both", "iadd_disjoint_sparse", "iadd_reloaded_operand", "fill_b_after_iadd", "pure_op_on_both_replicas",
-                       "partial_child_filled_directly", "partial_scaled_to_underflow"]
+                       "partial_child_filled_directly", "partial_scaled_to_underflow", "built_operands_share_an_object"]
 
     def generate(self, rng, tier, profile):
         if profile == "sparksql":
             return self.generate_spark(rng, tier)
+        if profile == "built":
+            # Fraction.build / Stack.build keep the objects they are given: two partial results assembled from pieces that
+            # share one object (the common denominator, a common layer)
+            specs, recs, regime = self.gen_workload(rng, tier, profile)
+            s = rng.fork("schedule")
+            n = len(recs)
+            fills = lambda: [[s.randrange(n), s.pick(specmod.POS_WEIGHTS)] for _ in range(s.randint(0, 5))]  # noqa: E731
+            return {"kind": "built", "specs": specs, "records": [specmod.enc_record(r) for r in recs], "regime": regime,
+                    "steps": [{"op": "built", "how": s.pick(["fraction-shared-den", "fraction-same-object", "stack-shared-layer"]),
+                               "n1": fills(), "n2": fills(), "den": fills(), "later": fills()} for _ in range(4)]}
         specs, recs, regime = self.gen_workload(rng, tier, profile)
         s = rng.fork("schedule")
         steps = [{"op": "new", "spec": 0, "out": 1, "actor": "D", "t": 0}, {"op": "new", "spec": 0, "out": 2, "actor": "D", "t": 0},
@@ -102,9 +112,70 @@ class C07(PoolScenario):
         return {"specs": specs, "records": [specmod.enc_record(r) for r in recs], "steps": steps, "regime": regime}
 
     # ------------------------------------------------------------------
+    def run_built(self, case, w, R):
+        import histogrammar as hg
+
+        R["shape"] = "built|" + specmod.shape_key(case["specs"][0])
+        units = 0
+
+        def tree(fl):
+            h = w.build(0).value
+            for i, wt in fl:
+                if i < len(w.records):
+                    h.fill(w.records[i], wt)
+            return h
+
+        for si, st in enumerate(case["steps"]):
+            def make():
+                n1, n2, den = tree(st["n1"]), tree(st["n2"]), tree(st["den"])
+                if st["how"] == "fraction-shared-den":
+                    return hg.Fraction.build(n1, den), hg.Fraction.build(n2, den), den
+                if st["how"] == "fraction-same-object":
+                    return hg.Fraction.build(den, den), hg.Fraction.build(n2, tree(st["den"])), den
+                return hg.Stack.build(n1, den), hg.Stack.build(n2, den), den
+
+            o1, o2 = call(make), call(make)  # two independent, equal systems: one for +=, one for +
+            if not o1.ok or not o2.ok:
+                continue
+            (a, b, shared), (a2, b2, _) = o1.value, o2.value
+            want = call(lambda: a2 + b2)
+            if not want.ok:
+                continue  # built Stacks have NaN thresholds: they cannot be merged at all (not this property's business)
+            b_before, shared_before = observe.observe(b), observe.observe(shared)
+
+            def iadd():
+                x = a
+                x += b
+                return x
+
+            got = call(iadd)
+            units += 1
+            w.bump("probe_built_operands_share_an_object")
+            if not got.ok:
+                raise self.violation(exc_site(got.exc)[0], "iadd", "exception:%s" % type(got.exc).__name__,
+                                     "a += b raised %s where a + b works (%s)" % (got.describe(), st["how"]), si)
+            if got.value is not a:
+                raise self.violation(a.name, "iadd", "identity-changed", "a += b rebound a (%s)" % st["how"], si)
+            d = observe.doc_diff(observe.observe(a), observe.observe(want.value), tol_for(w.records, 16))
+            if d is not None:
+                raise self.violation(d[1], "iadd", "content:%s" % d[2], "after a += b (%s) a differs from (old a) + b at %s (%s.%s)" % (st["how"], d[0], d[1], d[2]), si,
+                                     {"iadd": observe.observe(a), "add": observe.observe(want.value)})
+            if observe.observe(b) != b_before:
+                d = observe.doc_diff(b_before, observe.observe(b)) or ([], b.name, "?")
+                raise self.violation(d[1], "iadd", "operand-mutated:%s" % d[2], "a += b (%s) changed b at %s" % (st["how"], d[0]), si)
+            if st["how"] != "fraction-same-object" and observe.observe(shared) != shared_before:
+                d = observe.doc_diff(shared_before, observe.observe(shared)) or ([], shared.name, "?")
+                raise self.violation(d[1], "iadd", "operand-mutated:%s" % d[2],
+                                     "a += b (%s) changed the object b was built from at %s" % (st["how"], d[0]), si)
+            w.record_step(st, {1: observe.obs_hash(observe.observe(a))})
+        R["nontrivial"] = units >= 1
+        R["units"] = units
+
     def run(self, case, w, R):
         if case.get("kind") == "sparksql":
             return self.run_spark(case, w, R)
+        if case.get("kind") == "built":
+            return self.run_built(case, w, R)
         R["shape"] = specmod.shape_key(case["specs"][0])
         iadds = 0
         later = 0
